@@ -169,7 +169,7 @@ static DEFS: &[PropDef] = &[PropDef {
     judge: c02::judge,
     rule: "first a nesting ladder (10 nesting shapes at depth 48, each session executed in a child process on a 2 MiB stack) and a position sweep (a small program cut behind each of its tokens, all 13 methods at every column of the last lines); then seeded scenarios: each = one complete client session (handshake .. shutdown, exit) over 1..2 documents drawn from four generators (grammar-directed valid SPL, mutated SPL with unterminated literals/comments, token soup, arbitrary Unicode incl. CRLF) with 1..25 steps: didChange batches from the structural / arbitrary / overshooting / full-replacement families, typing bursts (one notification per keystroke, every intermediate state half-typed), close/reopen, copy-pasted declarations and renames to names already in use, notifications for unknown documents, and requests of all 13 methods at the cursor while typing, at token starts/insides/ends, white space, line ends, overshooting columns and lines, for open, closed and never opened documents; delivered under seeded chunking, schedules, channel capacities 1..33, stdout back-pressure and client stalls; non-trivial = at least one fault/back-pressure/yield fired and a frame was emitted; distinct = distinct interleaving signature",
     assumptions: &[
-        "release semantics as shipped (overflow wraps, debug_assert off): an arithmetic overflow that only panics in debug builds is a wrong answer, not a crash",
+        "optimised build with overflow checks ON (debug_assert off): an arithmetic overflow panics as it does in a debug build of the server - the property counts u32 subtractions among its crash sites; the pinned tree has none that the search reaches",
         "well-formed requests only (valid params for the method, integer ids)",
         "documents up to ~60 lines, nesting <= 8; a single poll running longer than 60 s is reported as non-termination by the watchdog",
         "panic sites are identified by (innermost function of the code under test, message with numbers normalised)",
